@@ -314,12 +314,27 @@ def rule_memo(ctx):
                       fld = x['n']
                       ok = False
                       if node['k'] == 'assign' and node['r']['k'] == 'ref':
-                          dest = node['p']['l']
-                          for pt2, t2 in b_.calls():
-                              if t2.get('callee') and t2['args'] and t2['args'][0]['k'] in ('move', 'copy') and \
-                                 t2['args'][0]['p']['l'] == dest and not t2['args'][0]['p']['pr']:
-                                  if t2['callee']['name'] in ('get_or_init', 'deref'):
-                                      ok = True
+                          # the borrow (possibly through the Arc's deref and re-borrows) must end as the receiver of get_or_init:
+                          # `get()` would show whether the cell has been filled
+                          work, seen_l, finals = [node['p']['l']], set(), []
+                          while work:
+                              dest = work.pop()
+                              if dest in seen_l:
+                                  continue
+                              seen_l.add(dest)
+                              for pt2, t2 in b_.calls():
+                                  if t2.get('callee') and t2['args'] and t2['args'][0]['k'] in ('move', 'copy') and \
+                                     t2['args'][0]['p']['l'] == dest and not t2['args'][0]['p']['pr']:
+                                      if t2['callee']['name'] in ('deref', 'as_ref', 'borrow'):
+                                          work.append(t2['dest']['l'])
+                                      else:
+                                          finals.append(t2['callee']['name'])
+                              for pt2, s2 in b_.points():
+                                  if s2['k'] == 'assign' and not s2['p']['pr'] and s2['r']['k'] in ('ref', 'use'):
+                                      src = s2['r']['p'] if s2['r']['k'] == 'ref' else (s2['r']['o'].get('p') if s2['r']['o']['k'] in ('copy', 'move') else None)
+                                      if src is not None and src['l'] == dest and all(y == '*' for y in src['pr']):
+                                          work.append(s2['p']['l'])
+                          ok = bool(finals) and all(n_ == 'get_or_init' for n_ in finals)
                       r.site('%s touches cache field %s' % (b.path, fld), node.get('s', b_.span()), 'ok' if ok else 'violation')
                       if not ok:
                           r.violation('%s:reads-cache:%s' % (b.path, fld), node.get('s', b_.span()), b.path,
